@@ -465,8 +465,12 @@ static const c_cfg_t ccfgs[] = {
 #define NCCFG ((int) (sizeof(ccfgs) / sizeof(ccfgs[0])))
 /* C_FINVAR: the flight is untouched, the Finished is varied: i = 0 one record, 1..15 split into two records after i bytes;
  * t = 0 the correct verify_data, 1 all zeros, 2 last bit flipped, 3 all 0xff */
-enum { C_NONE = 0, C_DELETE, C_DELETE2, C_DUP, C_SWAP, C_INJECT, C_CCS_FIRST, C_FINVAR, C_NK };
-static const char *cdname[] = { "none", "delete", "delete-two-consecutive", "duplicate", "swap", "inject-empty", "ccs-before-messages", "finished-variant" };
+/* C_CVSTALE: the client's CertificateVerify is a genuine signature of the certified key - made in ANOTHER handshake (other
+ * randoms); C_CVFLIP: its last signature byte differs; C_CVALG: t = the SignatureAndHashAlgorithm it names instead */
+/* part D applies the same three to the signed ServerKeyExchange; C_SKEPUB: this handshake's signature over the ECDHE
+ * public value of another handshake */
+enum { C_NONE = 0, C_DELETE, C_DELETE2, C_DUP, C_SWAP, C_INJECT, C_CCS_FIRST, C_FINVAR, C_CVSTALE, C_CVFLIP, C_CVALG, C_SKEPUB, C_NK };
+static const char *cdname[] = { "none", "delete", "delete-two-consecutive", "duplicate", "swap", "inject-empty", "ccs-before-messages", "finished-variant", "certificate-verify-of-another-handshake", "certificate-verify-bit-flipped", "certificate-verify-algorithm-rewritten", "key-exchange-public-value-swapped" };
 /* The stack below the caller is filled with one byte value before the last Finished fragment is fed: a verify_data
  * comparison against a buffer that was never written (uninitialised local) then compares against THAT value, in the
  * enumeration run and in every replay alike - the all-zero and all-0xff Finished variants are paired with fill 00 / ff. */
@@ -506,6 +510,9 @@ typedef struct {
     unsigned char ccs[8]; int ccslen;
     unsigned char ms[48], wkey[32], wsalt[4];
     int kind, i, t;
+    int seed;
+    unsigned char donor_cv[1200]; int donor_cv_len;
+    unsigned char cvbuf[1200];
 } c_ctx_t;
 
 static int c_setup(c_ctx_t *g)
@@ -514,7 +521,7 @@ static int c_setup(c_ctx_t *g)
     wcfg_t c;
     int turn = 0, guard = 0, d, k, have_ccs = 0;
     memset(&c, 0, sizeof(c));
-    c.ver = V_TLS12; c.kx = cc->kx; c.suite = cc->suite; c.client_auth = cc->cauth; c.ems_off = 1;
+    c.ver = V_TLS12; c.kx = cc->kx; c.suite = cc->suite; c.client_auth = cc->cauth; c.ems_off = 1; c.seed = g->seed;
     if (world_init(&g->w, &c) < 0)
     {
         return -1;
@@ -592,6 +599,34 @@ static int c_setup(c_ctx_t *g)
     return 0;
 }
 
+/* c_setup plus the client's CertificateVerify of ANOTHER handshake (other entropy seed => other randoms, same keys) */
+static int c_setup_full(c_ctx_t *g)
+{
+    static c_ctx_t dn;
+    int i;
+    g->donor_cv_len = 0;
+    if (ccfgs[g->ci].cauth)
+    {
+        memset(&dn, 0, sizeof(dn));
+        dn.ci = g->ci; dn.seed = 4242;
+        if (c_setup(&dn) == 0)
+        {
+            for (i = 0; i < dn.nm; i++)
+            {
+                if (dn.m[i].type == 15 && dn.m[i].len <= (int) sizeof(g->donor_cv))
+                {
+                    memcpy(g->donor_cv, dn.m[i].p, (size_t) dn.m[i].len);
+                    g->donor_cv_len = dn.m[i].len;
+                }
+            }
+        }
+        world_free(&dn.w);
+        buf_free(&dn.tr);
+    }
+    g->seed = 0;
+    return c_setup(g);
+}
+
 static void c_run_case(void *ctx, mx_result_t *r)
 {
     c_ctx_t *g = ctx;
@@ -626,6 +661,25 @@ static void c_run_case(void *ctx, mx_result_t *r)
         if (g->kind == C_DUP && g->i == i)
         {
             out[no++] = g->m[i];
+        }
+        if (g->kind == C_CVSTALE && g->i == i && g->donor_cv_len > 0)
+        {
+            out[no - 1].p = g->donor_cv;
+            out[no - 1].len = g->donor_cv_len;
+        }
+        if ((g->kind == C_CVFLIP || g->kind == C_CVALG) && g->i == i && g->m[i].len > 8 && g->m[i].len <= (int) sizeof(g->cvbuf))
+        {
+            memcpy(g->cvbuf, g->m[i].p, (size_t) g->m[i].len);
+            if (g->kind == C_CVFLIP)
+            {
+                g->cvbuf[g->m[i].len - 1] ^= 0x01;
+            }
+            else
+            {
+                g->cvbuf[4] = (unsigned char) (g->t >> 8);
+                g->cvbuf[5] = (unsigned char) g->t;
+            }
+            out[no - 1].p = g->cvbuf;
         }
     }
     buf_init(&tr);
@@ -709,6 +763,9 @@ typedef struct {
     unsigned char hs[12000]; int hl;   /* the server's first flight */
     tk_msg_t m[8]; int nm;
     int kind, i, t;
+    int seed;
+    unsigned char donor_ske[1200]; int donor_ske_len;
+    unsigned char skebuf[1200];
 } d_ctx_t;
 
 static int d_setup(d_ctx_t *g)
@@ -718,7 +775,7 @@ static int d_setup(d_ctx_t *g)
     int k;
     wire_t *q;
     memset(&c, 0, sizeof(c));
-    c.ver = V_TLS12; c.kx = cc->kx; c.suite = cc->suite; c.client_auth = cc->cauth; c.ems_off = 1;
+    c.ver = V_TLS12; c.kx = cc->kx; c.suite = cc->suite; c.client_auth = cc->cauth; c.ems_off = 1; c.seed = g->seed;
     if (world_init(&g->w, &c) < 0)
     {
         return -1;
@@ -753,6 +810,31 @@ static int d_setup(d_ctx_t *g)
     return 0;
 }
 
+/* d_setup plus the ServerKeyExchange of ANOTHER handshake (other entropy seed => other randoms and ephemeral key, same certificate key) */
+static int d_setup_full(d_ctx_t *g)
+{
+    static d_ctx_t dn;
+    int i;
+    g->donor_ske_len = 0;
+    memset(&dn, 0, sizeof(dn));
+    dn.ci = g->ci; dn.seed = 4242;
+    if (d_setup(&dn) == 0)
+    {
+        for (i = 0; i < dn.nm; i++)
+        {
+            if (dn.m[i].type == 12 && dn.m[i].len <= (int) sizeof(g->donor_ske))
+            {
+                memcpy(g->donor_ske, dn.m[i].p, (size_t) dn.m[i].len);
+                g->donor_ske_len = dn.m[i].len;
+            }
+        }
+    }
+    world_free(&dn.w);
+    buf_free(&dn.tr);
+    g->seed = 0;
+    return d_setup(g);
+}
+
 static void d_run_case(void *ctx, mx_result_t *r)
 {
     d_ctx_t *g = ctx;
@@ -784,6 +866,31 @@ static void d_run_case(void *ctx, mx_result_t *r)
         }
         out[no++] = g->m[i];
         if (g->kind == C_DUP && g->i == i) out[no++] = g->m[i];
+        if (g->kind == C_CVSTALE && g->i == i && g->donor_ske_len > 0)
+        {
+            out[no - 1].p = g->donor_ske;
+            out[no - 1].len = g->donor_ske_len;
+        }
+        if ((g->kind == C_CVFLIP || g->kind == C_CVALG || g->kind == C_SKEPUB) && g->i == i && g->m[i].len > 12 && g->m[i].len <= (int) sizeof(g->skebuf))
+        {
+            /* ECDHE ServerKeyExchange: curve_type, named_curve(2), point length, point, algorithm(2), signature length(2), signature */
+            int pl = g->m[i].p[7], ao = 8 + pl;
+            memcpy(g->skebuf, g->m[i].p, (size_t) g->m[i].len);
+            if (g->kind == C_CVFLIP)
+            {
+                g->skebuf[g->m[i].len - 1] ^= 0x01;
+            }
+            else if (g->kind == C_CVALG && ao + 2 <= g->m[i].len)
+            {
+                g->skebuf[ao] = (unsigned char) (g->t >> 8);
+                g->skebuf[ao + 1] = (unsigned char) g->t;
+            }
+            else if (g->kind == C_SKEPUB && g->donor_ske_len == g->m[i].len && g->donor_ske[7] == pl)
+            {
+                memcpy(g->skebuf + 8, g->donor_ske + 8, (size_t) pl);
+            }
+            out[no - 1].p = g->skebuf;
+        }
     }
     buf_init(&tr);
     buf_add(&tr, g->tr.p, g->tr.len);
@@ -854,7 +961,7 @@ static void d_run_case(void *ctx, mx_result_t *r)
         legal = 1;
         while (legal && (a < no || b < g->nm))
         {
-            if (a < no && b < g->nm && out[a].type == g->m[b].type && out[a].p == g->m[b].p) { a++; b++; }
+            if (a < no && b < g->nm && out[a].type == g->m[b].type && out[a].p == g->m[b].p && out[a].len == g->m[b].len) { a++; b++; }
             else if (b < g->nm && g->m[b].type == 13) b++;
             else legal = 0;
         }
@@ -896,7 +1003,7 @@ static void run_group(long gi, void *unused)
         int i, t, rc;
         memset(&g, 0, sizeof(g));
         g.ci = groups[gi].ci;
-        if ((rc = d_setup(&g)) != 0)
+        if ((rc = d_setup_full(&g)) != 0)
         {
             mx_result_t r;
             memset(&r, 0, sizeof(r));
@@ -917,6 +1024,18 @@ static void run_group(long gi, void *unused)
         }
         for (i = 0; i < g.nm; i++)
         {
+            if (g.m[i].type == 12 && g.m[i].len > 12 && g.m[i].p[4] == 3)
+            {
+                static const int algs[] = { 0x0201, 0x0401, 0x0501, 0x0601, 0x0403, 0x0503, 0x0603, 0x0804, 0x0805, 0x0806, 0x0807, 0x0101, 0x0000, 0xffff };
+                int ao = 8 + g.m[i].p[7], hon = ao + 2 <= g.m[i].len ? (g.m[i].p[ao] << 8) | g.m[i].p[ao + 1] : -1;
+                if (g.donor_ske_len > 0) DFORK(C_CVSTALE, i, 0);
+                if (g.donor_ske_len == g.m[i].len) DFORK(C_SKEPUB, i, 0);
+                DFORK(C_CVFLIP, i, 0);
+                for (t = 0; t < (int) (sizeof(algs) / sizeof(algs[0])); t++)
+                {
+                    if (algs[t] != hon) DFORK(C_CVALG, i, algs[t]);
+                }
+            }
             DFORK(C_DELETE, i, 0);
             DFORK(C_DUP, i, 0);
             if (i + 1 < g.nm) DFORK(C_SWAP, i, 0);
@@ -942,7 +1061,7 @@ static void run_group(long gi, void *unused)
         int i, t, rc;
         memset(&g, 0, sizeof(g));
         g.ci = groups[gi].ci;
-        if ((rc = c_setup(&g)) != 0)
+        if ((rc = c_setup_full(&g)) != 0)
         {
             mx_result_t r;
             memset(&r, 0, sizeof(r));
@@ -964,6 +1083,19 @@ static void run_group(long gi, void *unused)
         }
         for (i = 0; i < g.nm; i++)
         {
+            if (g.m[i].type == 15)
+            {
+                /* the honest CertificateVerify names (hash, signature) in its first two bytes: every other pair of the
+                   TLS 1.2 registries' low ranges, so that the same signature bytes are interpreted under another algorithm */
+                static const int algs[] = { 0x0201, 0x0401, 0x0501, 0x0601, 0x0403, 0x0503, 0x0603, 0x0804, 0x0805, 0x0806, 0x0807, 0x0101, 0x0000, 0xffff };
+                int hon = (g.m[i].p[4] << 8) | g.m[i].p[5];
+                if (g.donor_cv_len > 0) CFORK(C_CVSTALE, i, 0);
+                CFORK(C_CVFLIP, i, 0);
+                for (t = 0; t < (int) (sizeof(algs) / sizeof(algs[0])); t++)
+                {
+                    if (algs[t] != hon) CFORK(C_CVALG, i, algs[t]);
+                }
+            }
             CFORK(C_DELETE, i, 0);
             CFORK(C_DUP, i, 0);
             if (i + 1 < g.nm) CFORK(C_SWAP, i, 0);
@@ -1127,7 +1259,7 @@ int main(int argc, char **argv)
             {
                 return 2;
             }
-            if ((rc = d_setup(&g)) != 0)
+            if ((rc = d_setup_full(&g)) != 0)
             {
                 fprintf(stderr, "setup failed %d\n", rc);
                 return 2;
@@ -1144,7 +1276,7 @@ int main(int argc, char **argv)
             {
                 return 2;
             }
-            if ((rc = c_setup(&g)) != 0)
+            if ((rc = c_setup_full(&g)) != 0)
             {
                 fprintf(stderr, "setup failed %d\n", rc);
                 return 2;
